@@ -34,6 +34,9 @@ impl NPay {
 pub struct Whole {
     pub out: NOut,
     pub pay: NPay,
+    /// what the packet-level accessor methods answer (`ether_payload()`, `ip_payload()`,
+    /// `vlan_ids()`, `is_ip_payload_fragmented()`, `payload_ether_type()`): name -> value
+    pub acc: Vec<(&'static str, u128)>,
     /// an iterator exceeded its step budget (C02)
     pub budget_exceeded: bool,
 }
@@ -216,9 +219,29 @@ pub fn sliced_cx(cx: &mut Cx, p: &SlicedPacket) -> Whole {
             incomplete: None,
         };
     }
+    let mut acc: Vec<(&'static str, u128)> = Vec::new();
+    if let Some(e) = p.ether_payload() {
+        acc.push(("ether.ety", e.ether_type.0 as u128));
+        acc.push(("ether.off", cx.off(e.payload, "SlicedPacket::ether_payload") as u128));
+        acc.push(("ether.len", e.payload.len() as u128));
+        acc.push(("ether.src", src(e.len_source).bit() as u128));
+    }
+    if let Some(ety) = p.payload_ether_type() {
+        acc.push(("payload_ether_type", ety.0 as u128));
+    }
+    if let Some(i) = p.ip_payload() {
+        acc.push(("ip.num", i.ip_number.0 as u128));
+        acc.push(("ip.off", cx.off(i.payload, "SlicedPacket::ip_payload") as u128));
+        acc.push(("ip.len", i.payload.len() as u128));
+        acc.push(("ip.src", src(i.len_source).bit() as u128));
+        acc.push(("ip.frag", i.fragmented as u128));
+    }
+    acc.push(("is_ip_payload_fragmented", p.is_ip_payload_fragmented() as u128));
+    acc.push(("vlan_ids", p.vlan_ids().iter().fold(1u128, |a, v| (a << 16) | v.value() as u128)));
     Whole {
         out: NOut::ok(layers),
         pay,
+        acc,
         budget_exceeded: budget,
     }
 }
@@ -364,6 +387,23 @@ pub fn lax_sliced_cx(cx: &mut Cx, p: &LaxSlicedPacket) -> Whole {
         .stop_err
         .as_ref()
         .map(|(e, l)| (n_packet_slice_error(e), lay(*l)));
+    let mut acc: Vec<(&'static str, u128)> = Vec::new();
+    if let Some(e) = p.ether_payload() {
+        acc.push(("ether.ety", e.ether_type.0 as u128));
+        acc.push(("ether.off", cx.off(e.payload, "LaxSlicedPacket::ether_payload") as u128));
+        acc.push(("ether.len", e.payload.len() as u128));
+        acc.push(("ether.src", src(e.len_source).bit() as u128));
+        acc.push(("ether.incomplete", e.incomplete as u128));
+    }
+    if let Some(i) = p.ip_payload() {
+        acc.push(("ip.num", i.ip_number.0 as u128));
+        acc.push(("ip.off", cx.off(i.payload, "LaxSlicedPacket::ip_payload") as u128));
+        acc.push(("ip.len", i.payload.len() as u128));
+        acc.push(("ip.src", src(i.len_source).bit() as u128));
+        acc.push(("ip.frag", i.fragmented as u128));
+        acc.push(("ip.incomplete", i.incomplete as u128));
+    }
+    acc.push(("vlan_ids", p.vlan_ids().iter().fold(1u128, |a, v| (a << 16) | v.value() as u128)));
     Whole {
         out: NOut {
             layers,
@@ -371,6 +411,7 @@ pub fn lax_sliced_cx(cx: &mut Cx, p: &LaxSlicedPacket) -> Whole {
             stop,
         },
         pay,
+        acc,
         budget_exceeded: budget,
     }
 }
@@ -522,6 +563,7 @@ pub fn headers_cx(cx: &mut Cx, p: &PacketHeaders) -> Whole {
     Whole {
         out: NOut::ok(layers),
         pay,
+        acc: Vec::new(),
         budget_exceeded: false,
     }
 }
@@ -558,6 +600,7 @@ pub fn lax_headers_cx(cx: &mut Cx, p: &LaxPacketHeaders) -> Whole {
             stop,
         },
         pay,
+        acc: Vec::new(),
         budget_exceeded: false,
     }
 }
